@@ -11,6 +11,12 @@ P = {
  "C02": ("exploration", "rapid PBT + exhaustive small-scope enumeration of rule mixes; differential against a reference model of the awk-style rule schedule",
    "Tracing programs (every rule prints its id, $file, $, $index) over generated configurations of files x values x selectors x root shapes are compared line by line with the schedule of DESIGN.md 4.1; plus every ordered choice of <= 3 rules x {exit|next|none in rule j} x 3 fixed configurations, completely. Exploration (model-based differential).",
    "Trusted: refjq's driver as the documented schedule. Not asserted (discarded, counted): $index outside array roots, $file outside file processing, `next` outside pattern rules, $ in ENDFILE after the root was replaced.", "5/C02, 4.1"),
+ "C07": ("exploration", "rapid PBT over a structured-program grammar; differential against a reference model of the statement semantics (trace equality)",
+   "Generated programs nest if/else (incl. dangling else), while, three-clause for, for-in over arrays/objects/strings and blocks to depth 4 (6 thorough) with break/continue/return/next/exit at arbitrary positions, conditions and bounds read from a generated document; every statement position prints a trace line; the whole trace must equal refjq's. 15k programs quick, 300k thorough. Exploration (model-based differential).",
+   "Trusted: refjq's statement semantics (DESIGN.md 4.4). Object key order is not asserted (any order, each key once; determinism is C10's). Loops terminate by construction.", "5/C07, 4.4"),
+ "C08": ("exploration", "rapid PBT differential against a reference frame model + long operation histories with a metamorphic oracle (output for N elements = N x output for one)",
+   "(a) 8k (150k thorough) programs with 1-4 functions called from every expression position, probing after each call every name a callee touched; (b) every construct that pushes a frame (call, match expression/block body, return in a match block, next in a function, break/continue in match blocks) run over 1...20000 elements and as 1...20000 loop iterations, followed by a depth-1000 recursion. Exploration (model-based, long histories).",
+   "Trusted: refjq's frame model (DESIGN.md 4.2). Reads of names living only in a caller's frame (dynamic scope) are unspecified and never generated.", "5/C08, 4.2"),
  "C05": ("exploration", "exhaustive small-scope enumeration + rapid PBT, differential against a reference model of the section-3 operator tables",
    "Every operator x every ordered pair of 40 representative operands x 3-4 supply modes is enumerated completely (about 66k programs), then 20k (quick) / 150k (thorough) random operand pairs; each result is compared in kind, value and error class with the section-3 tables. Exploration, exhaustive over the stated representative grid: it decides the table on the grid, not on every double.",
    "Trusted: refjq's transcription of DESIGN.md section 3; Go's regexp for RE2; exotic numeric strings, non-finite results and |x| >= 2^53 for % are unspecified and discarded (counted).", "5/C05, 3"),
